@@ -1,14 +1,22 @@
 import Glom.Py.Json
-import Glom.Spec.C01
-import Glom.Model.C01Env
+import Glom.Spec.C01Reg
+import Glom.Model.C01Env2
 /-
   C01 driver: one JSON case in, one JSON verdict out.
 
-  case:  {"classes":[[cls,[mro…]]…], "heap":[Obj…], "target":Val,
-          "spelling": {"text": "a.b.c"} | {"parts":[{"seg":Val} | {"t":[[op,Val]…]}…]},
-          "impl": {"ok":Val} | {"pae":{"idx":n,"exc":cls,"glom":b,"key":b,"index":b,"attr":b}}
-                  | {"other":cls},
-          "impl_touched": [n…] | null }
+  case:  {"classes":[[cls,[mro…]]…],            effective MRO of every user class
+          "info":[[cls,{"fields":[…],"props":[[name,Behav]…],"attrs":[…],
+                        "fallback":Behav|null,"missing":Behav|null}]…],
+          "excs":[[cls,[mro…]]…],                user exception classes
+          "heap":[Obj…],
+          "events":[ {"reg":{"cls":c,"get":Handler|null,"exact":b}}
+                   | {"glom":{"spelling":Spelling,"target":Val}} …],
+          "defaults":bool (optional; false: Glommer(register_default_types=False)),
+          "impl":[ {"obs":Obs,"touched":[n…]|null} … ] }     one per glom event
+  Spelling: {"text":"a.b.c"} | {"parts":[{"seg":Val} | {"t":[[op,Val]…]}…]}
+  Behav:    {"raises":cls} | {"const":Val} | "echo" | {"slot":a} | {"table":a}
+  Handler:  "getattr" | "getitem" | "seq" | {"table":a} | {"raises":cls} | false
+  Obs:      {"ok":Val} | {"pae":{"idx":n,"exc":cls,"glom":b,"key":b,"index":b,"attr":b}} | {"other":cls}
 -/
 namespace Glom.C01.Driver
 open Lean Glom Glom.C01
@@ -35,37 +43,115 @@ def obsToJson : Obs → Json
       ("key", ke), ("index", ie), ("attr", ae)])]
   | .other c => Json.mkObj [("other", c)]
 
-def run (j : Json) : Except String Json := do
-  let classes ← classTableOfJson (← j.getObjVal? "classes")
-  let heap ← heapOfJson (← j.getObjVal? "heap")
-  let target ← valOfJson (← j.getObjVal? "target")
-  let sp ← j.getObjVal? "spelling"
-  let parts ← (do
-    if let .ok t := sp.getObjValAs? String "text" then return partsOfText t.toList
-    else listOfJson partOfJson (← sp.getObjVal? "parts") : Except String (List Part))
-  let implObs ← obsOfJson (← j.getObjVal? "impl")
-  let implTouched : Option (List Nat) ←
-    (match j.getObjVal? "impl_touched" with
+def behavOfJson (j : Json) : Except String Behav := do
+  match j with
+  | .str "echo" => return .echo
+  | _ =>
+    if let .ok c := j.getObjValAs? String "raises" then return .raises c
+    else if let .ok v := j.getObjVal? "const" then return .const (← valOfJson v)
+    else if let .ok a := j.getObjValAs? String "slot" then return .slot a
+    else if let .ok a := j.getObjValAs? String "table" then return .table a
+    else throw s!"bad behav {j.compress}"
+
+def optBehav (j : Json) (key : String) : Except String (Option Behav) :=
+  match j.getObjVal? key with
+  | .ok .null => pure none
+  | .ok b => do return some (← behavOfJson b)
+  | .error _ => pure none
+
+def infoOfJson (j : Json) : Except String ClsInfo := do
+  let fields ← listOfJson strOfJson (← j.getObjVal? "fields")
+  let props ← listOfJson (pairOfJson strOfJson behavOfJson) (← j.getObjVal? "props")
+  let attrs ← listOfJson strOfJson (← j.getObjVal? "attrs")
+  return { fields, props, attrs, fallback := ← optBehav j "fallback", missing := ← optBehav j "missing" }
+
+def handlerOfJson (j : Json) : Except String (Option Handler) := do
+  match j with
+  | .null => return none
+  | .bool false => return some .off
+  | .str "getattr" => return some .getattr
+  | .str "getitem" => return some .getitem
+  | .str "seq" => return some .seqItem
+  | _ =>
+    if let .ok a := j.getObjValAs? String "table" then return some (.table a)
+    else if let .ok c := j.getObjValAs? String "raises" then return some (.raises c)
+    else throw s!"bad handler {j.compress}"
+
+/-- an event; for a glom event also whether its steps are access steps only -/
+def eventOfJson (j : Json) : Except String Event := do
+  if let .ok r := j.getObjVal? "reg" then
+    return .register (← r.getObjValAs? String "cls") (← handlerOfJson (r.getObjValD "get"))
+      (← r.getObjValAs? Bool "exact")
+  else if let .ok g := j.getObjVal? "glom" then
+    let sp ← g.getObjVal? "spelling"
+    let parts ← (do
+      if let .ok t := sp.getObjValAs? String "text" then return partsOfText t.toList
+      else listOfJson partOfJson (← sp.getObjVal? "parts") : Except String (List Part))
+    return .glom (stepsOfParts parts) (← valOfJson (← g.getObjVal? "target"))
+  else throw s!"bad event {j.compress}"
+
+def implOfJson (j : Json) : Except String (Obs × Option (List Nat)) := do
+  let o ← obsOfJson (← j.getObjVal? "obs")
+  let t : Option (List Nat) ←
+    (match j.getObjVal? "touched" with
      | .ok .null => pure none
      | .ok t => do return some (← listOfJson natOfJson t)
      | .error _ => pure none)
-  let env := genEnv classes
-  let steps := stepsOfParts parts
-  let out := tEval env heap (flatOfParts parts) target
-  let modelObs := observe env out
-  -- wildcard steps are outside C01 (C14): report as skipped
-  if !(wfSteps steps) then
+  return (o, t)
+
+def obsAgree (m i : Obs) : Bool :=
+  match m, i with
+  | .ok a, .ok b => valMatch a b
+  | a, b => a == b
+
+def agreeAll : List Out2 → Env → List (Obs × Option (List Nat)) → Bool
+  | [], _, [] => true
+  | o :: os, env, (i, t) :: is =>
+    obsAgree (observe2 env o) i &&
+    (match t with | some t => isSubseq t (touchedAddrs o.touched) | none => true) &&
+    agreeAll os env is
+  | _, _, _ => false
+
+def branchOf (hasReg : Bool) (o : Obs) : String :=
+  (if hasReg then "reg/" else "") ++
+  (match o with
+   | .ok (.ref _) => "ok-container"
+   | .ok (.sent _) => "ok-opaque"
+   | .ok _ => "ok-scalar"
+   | .pae _ c .. => s!"pae-{c}"
+   | .other c => s!"other-{c}")
+
+def run (j : Json) : Except String Json := do
+  let classes ← classTableOfJson (← j.getObjVal? "classes")
+  let info ← listOfJson (pairOfJson strOfJson infoOfJson) (← j.getObjVal? "info")
+  let excs ← classTableOfJson (← j.getObjVal? "excs")
+  let heap ← heapOfJson (← j.getObjVal? "heap")
+  let events ← listOfJson eventOfJson (← j.getObjVal? "events")
+  let impl ← listOfJson implOfJson (← j.getObjVal? "impl")
+  -- handlers outside the catalogue do not occur in generated cases
+  let env := genEnv2 classes info excs (fun _ _ _ _ => .beyond)
+  if !(wfEvents events) then
     return Json.mkObj [("skip", true), ("why", "path has non-access steps")]
-  let agree := (modelObs == implObs) &&
-    (match implTouched with | some t => isSubseq t (touchedAddrs out.touched) | none => true)
-  let holds := checkC01 env heap steps target implObs implTouched
-  let modelHolds := checkC01 env heap steps target modelObs (some (touchedAddrs out.touched))
+  -- Glommer(register_default_types=False) starts from an empty table
+  let defaults := (j.getObjValAs? Bool "defaults").toOption.getD true
+  let tbl0 : Table := if defaults then defaultTable else { map := [], tree := [] }
+  let reg0 : Reg := { tbl := tbl0, cache := [] }
+  let ref := refHistory env heap tbl0 events
+  if !(ref.all (fun p => p.1.inDomain)) then
+    return Json.mkObj [("skip", true), ("why", "a walk leaves the modelled domain")]
+  let outs := runHistory env heap reg0 events
+  let agree := agreeAll outs env impl
+  let holds := checkC01h env heap tbl0 events impl
+  let modelHolds := checkC01h env heap tbl0 events
+    (outs.map (fun o => (observe2 env o, some (touchedAddrs o.touched))))
+  let hasReg := events.any (fun e => match e with | .register .. => true | _ => false)
+  let lastObs := match outs.getLast? with
+    | some o => observe2 env o
+    | none => .other "no-glom-event"
   return Json.mkObj [("agree", agree), ("holds", holds), ("model_holds", modelHolds),
-    ("wf", WF env),
-    ("model", obsToJson modelObs),
-    ("model_touched", toJson (touchedAddrs out.touched)),
-    ("branch", match modelObs with
-      | .ok (.ref _) => "ok-container" | .ok _ => "ok-scalar"
-      | .pae _ c .. => s!"pae-{c}" | .other c => s!"other-{c}")]
+    ("wf", WF2 env && factsOK),
+    ("model", Json.arr (outs.map (fun o => obsToJson (observe2 env o))).toArray),
+    ("model_touched", Json.arr (outs.map (fun o => toJson (touchedAddrs o.touched))).toArray),
+    ("branch", branchOf hasReg lastObs)]
 
 end Glom.C01.Driver
